@@ -66,7 +66,7 @@ impl Check for C18 {
     }
     fn runs(&self, tier: Tier) -> u64 {
         match tier {
-            Tier::Quick => 200_000,
+            Tier::Quick => 500_000,
             Tier::Thorough => 10_000_000,
         }
     }
